@@ -483,7 +483,13 @@ fn main() {
   // (class-bound programs do not survive lowering on the pinned tree: known finding C03-K2)
   let fams: Vec<Prog> = progfam::all_families(thorough).into_iter().filter(|p| p.family != "class-bound").collect();
   if thorough {
-    progs.extend(fams);
+    // the two largest generated families at stride 4 (C01/C03/C04 run them in full; here every
+    // program costs 48 optimiser pipelines)
+    for (i, p) in fams.into_iter().enumerate() {
+      if !matches!(p.family, "inference-shape" | "type-shape") || i % 4 == 0 {
+        progs.push(p);
+      }
+    }
   } else {
     // quick: a fixed slice of the other families (every 8th program, all small families)
     for (i, p) in fams.into_iter().enumerate() {
